@@ -646,7 +646,30 @@ def facts_results():
     return out
 
 
-SECTIONS = [("stream", facts_stream), ("control", facts_control), ("packets", facts_packets), ("conn", facts_conn), ("shared", facts_shared), ("auth", facts_auth), ("results", facts_results)]
+# ----------------------------------------------------------------------------- schema.py / catalog
+CATALOG_BODIES = [
+    "schema.py::like_to_regex", "schema.py::mapping_to_columns", "schema.py::info_schema_tables",
+    "schema.py::show_statement_to_info_schema_query", "schema.py::com_field_list_to_show_statement", "schema.py::ensure_info_schema",
+    "schema.py:InfoSchema:query", "schema.py:InfoSchema:from_mapping", "utils.py::dict_depth",
+    "session.py:Session:_show_variables", "session.py:Session:_show", "session.py:Session:_describe_middleware",
+    "session.py:Session:_show_middleware", "session.py:Session:_query_info_schema",
+]
+
+
+def facts_catalog():
+    out = []
+    for key in CATALOG_BODIES:
+        body_fact(key, out)
+    cst = parse("constants.py")
+    info = [n for n in cst.body if isinstance(n, ast.Assign) and ast.unparse(n.targets[0]) == "INFO_SCHEMA"]
+    if len(info) != 1 or not isinstance(info[0].value, ast.Dict):
+        raise Shape("INFO_SCHEMA not found")
+    dbs = [k.value for k in info[0].value.keys]
+    out.append("Definition constants_info_schema_dbs : list string := [" + "; ".join(coq_string(d) for d in dbs) + "]%string.")
+    return out
+
+
+SECTIONS = [("stream", facts_stream), ("control", facts_control), ("packets", facts_packets), ("conn", facts_conn), ("shared", facts_shared), ("auth", facts_auth), ("results", facts_results), ("catalog", facts_catalog)]
 
 
 IMPORTS = {
